@@ -1,0 +1,24 @@
+//go:build verif
+
+package parser
+
+import (
+	"sync/atomic"
+
+	"github.com/a-h/parse"
+)
+
+// VerifLoopHook, when set, is called at the top of every iteration of the parser's loops with the
+// loop's name, an id of the loop invocation and the cursor index. It exists for verification
+// builds only (build tag verif); normal builds compile the calls to nothing.
+var VerifLoopHook func(pi *parse.Input, loop string, frame uint64, index int)
+
+var verifFrames atomic.Uint64
+
+func verifEnter() uint64 { return verifFrames.Add(1) }
+
+func verifIter(pi *parse.Input, loop string, frame uint64) {
+	if h := VerifLoopHook; h != nil {
+		h(pi, loop, frame, pi.Index())
+	}
+}
